@@ -186,13 +186,31 @@ def validate_traces(module, traces, *, cfg=None, batch_events=4000, parallel=12,
         if cur:
             batches.append(cur)
 
+        def clean(x):
+            """TLC's Json module has no null / float: map None -> "none", integral floats -> int (others are a driver bug)."""
+            if x is None:
+                return "none"
+            if isinstance(x, bool) or isinstance(x, (int, str)):
+                return x
+            if isinstance(x, float):
+                if x == int(x) and abs(x) < 2**31:
+                    return int(x)
+                raise MachineryError(f"float in trace event: {x!r}")
+            if isinstance(x, dict):
+                return {str(k): clean(v) for k, v in x.items()}
+            if isinstance(x, (list, tuple)):
+                return [clean(v) for v in x]
+            if hasattr(x, "item"):
+                return clean(x.item())
+            raise MachineryError(f"unsupported value in trace event: {type(x)}")
+
         def write(bi, items):
             path = os.path.join(work, f"b{bi}.ndjson")
             k = 0
             with open(path, "w") as f:
                 for _tid, tr in items:
                     for e in tr:
-                        f.write(json.dumps(e, separators=(",", ":")) + "\n")
+                        f.write(json.dumps(clean(e), separators=(",", ":")) + "\n")
                         k += 1
                 f.write('{"ev":"eof"}\n')
             return path, k + 1
